@@ -92,3 +92,8 @@ func init() {
 	prop("C07", "C07-R4")
 	prop("C17", "C07-R4")
 }
+
+func init() {
+	prop("C05", "C01-R1")
+	prop("C11", "C14-R1")
+}
